@@ -13,6 +13,7 @@ from hgv.trace import Trace
 from hgv.worker import HarnessError
 
 ID = "C05"
+ASAN_THOROUGH = True   # thorough tier runs against the AddressSanitizer build
 RULE = ("A scripted writer over a random schema (TSS, TSD incl. nested TSD/TSS/TSB/TSL values, TSL, TSB, tick TSW; depth <= 3) applies a "
         "generated mutation history - several mutations per cycle, add-then-remove and remove-then-re-add of one element, set/erase/set "
         "of one key, clear, growth bursts across the 8/16/32 slot boundaries, removal and later re-insertion - observed by a recorder "
